@@ -280,7 +280,7 @@ fn orphan_replay(out: &mut Out, ops: &[String]) {
 
 fn run_orphan(opts: &Opts, out: &mut Out) -> &'static str {
     let mut rng = Rng::new(opts.seed);
-    let (cases, xlen) = if opts.thorough() { (20_000, 5) } else { (2_000, 4) };
+    let (cases, xlen) = if opts.thorough() { (180_000, 5) } else { (2_000, 4) };
     // chain 1<-2<-3 with a sibling 4 of 2; root 100 missing
     orphan_exhaustive(out, &[(1, 100, 1), (2, 1, 1), (3, 2, 2), (4, 1, 1)], &[100, 7], xlen);
     // two trees
@@ -476,7 +476,7 @@ fn skip_replay(out: &mut Out, ops: &[String]) {
 
 fn run_skip(opts: &Opts, out: &mut Out) -> &'static str {
     let mut rng = Rng::new(opts.seed);
-    let (small, big) = if opts.thorough() { (3_000, 12) } else { (300, 2) };
+    let (small, big) = if opts.thorough() { (24_000, 60) } else { (300, 2) };
     for _ in 0..small * opts.scale as usize {
         let n = rng.range(2, 70);
         skip_case(out, &mut rng, n, 30);
@@ -805,7 +805,7 @@ fn run_inflight(opts: &Opts, out: &mut Out) -> &'static str {
     let mut rng = Rng::new(opts.seed);
     out.begin_case("inflight constants");
     out.op("consts", &consts_line());
-    let (cases, longs) = if opts.thorough() { (12_000, 12) } else { (1_200, 2) };
+    let (cases, longs) = if opts.thorough() { (120_000, 60) } else { (1_200, 2) };
     for _ in 0..cases * opts.scale as usize {
         let n = rng.range(10, 60) as usize;
         inflight_case(out, &mut rng, n, false);
@@ -922,7 +922,7 @@ fn hm_apply(out: &mut Out, sim: &mut HmSim, code: usize, nkeys: usize, fresh: &m
 fn run_headermap(opts: &Opts, out: &mut Out) -> &'static str {
     let mut rng = Rng::new(opts.seed);
     let base = crate::node::scratch_dir(&opts.out, "c17hm");
-    let (xlen, cases) = if opts.thorough() { (5, 20_000) } else { (4, 2_000) };
+    let (xlen, cases) = if opts.thorough() { (5, 180_000) } else { (4, 2_000) };
     // bounded-exhaustive: 3 keys, every op sequence, limits 1 and 2
     for limit in [1usize, 2] {
         let nkeys = 3usize;
@@ -1073,7 +1073,7 @@ fn locator_case(out: &mut Out, rng: &mut Rng, base: &std::path::Path, case_no: u
         let stored = rng.chance(1, 3);
         let from = if rng.chance(1, 3) { *rng.pick(&leaves) } else { rng.below(hdrs.len() as u64) };
         let from_n = hdrs[from as usize].1;
-        let max_len = if stored { (m - from_n).saturating_sub(1) } else { 30 };
+        let max_len = if stored { m.saturating_sub(from_n).saturating_sub(1) } else { 30 };
         // header-only branches may only grow from headers whose ancestors the node can resolve
         if max_len == 0 || (stored && !(1..=main_tip).contains(&from) && from != 0) {
             continue;
@@ -1140,7 +1140,7 @@ fn locator_case(out: &mut Out, rng: &mut Rng, base: &std::path::Path, case_no: u
 fn run_locator(opts: &Opts, out: &mut Out) -> &'static str {
     let mut rng = Rng::new(opts.seed);
     let base = crate::node::scratch_dir(&opts.out, "c17loc");
-    let cases = if opts.thorough() { 40 } else { 5 } * opts.scale as usize;
+    let cases = if opts.thorough() { 120 } else { 5 } * opts.scale as usize;
     for i in 0..cases {
         locator_case(out, &mut rng, &base, i);
     }
